@@ -2,14 +2,15 @@
 """Re-run the check of a filed seeded change: recheck_seed.py <seed-dir-name> [...]  (all if none given)."""
 import glob, json, os, subprocess, sys
 V = os.path.dirname(os.path.dirname(os.path.abspath(__file__)))
+REPO = os.environ.get('VERIF_REPO', '/repo')   # the working tree the patch is applied to and the check runs against
 names = sys.argv[1:] or sorted(os.path.basename(d) for d in glob.glob(os.path.join(V, 'seeded', '*')) if os.path.isdir(d))
 for n in names:
     d = os.path.join(V, 'seeded', n)
     m = json.load(open(os.path.join(d, 'meta.json')))
     prop = m['property'].split(',')[0]
-    assert subprocess.run('git -C /repo status --porcelain', shell=True, stdout=subprocess.PIPE, text=True).stdout.strip() == '', 'repo not clean'
+    assert subprocess.run('git -C %s status --porcelain' % REPO, shell=True, stdout=subprocess.PIPE, text=True).stdout.strip() == '', 'repo not clean'
     try:
-        subprocess.run(['git', '-C', '/repo', 'apply', os.path.join(d, 'patch.diff')], check=True)
+        subprocess.run(['git', '-C', REPO, 'apply', os.path.join(d, 'patch.diff')], check=True)
         p = subprocess.run([os.path.join(V, 'check'), prop, '--tier', 'quick'], cwd=V, env=dict(os.environ, VERIF_NO_EVIDENCE='1'),
                            stdout=subprocess.PIPE, stderr=subprocess.STDOUT, text=True)
         verdict = {0: 'MISSED', 1: 'DETECTED'}.get(p.returncode, 'ERROR rc %d' % p.returncode)
@@ -17,6 +18,6 @@ for n in names:
         m['check_quick'] = verdict
         m['check_detail'] = ' | '.join(x[:300] for x in det) if det else p.stdout[-300:]
     finally:
-        subprocess.run('git -C /repo checkout -- .', shell=True)
+        subprocess.run('git -C %s checkout -- .' % REPO, shell=True)
     json.dump(m, open(os.path.join(d, 'meta.json'), 'w'), indent=1)
     print(n, verdict, m['check_detail'][:160])
